@@ -868,8 +868,11 @@ static double FX[FLEN], FY[FLEN];
                         -> <= 3.5*2^-53*sum|terms|; 2*eps = 4*2^-53);
    range: y in [min,max] of {0} U inputs so far up to slack = 2*ulp(M) + 2*eps*M*min(k+1, 1/alpha), M = max(|min|,|max|).
           DESIGN.md planned "2 ulp"; that is not sound: fl(1-alpha)+alpha != 1 and the per-step rounding error delta <= 2.5*2^-53*M
-          is only contracted by (1-alpha) per step, so the excess can build up to delta*min(k+1,1/alpha) (28 ulp observed on the
-          unchanged tree at alpha=0.0123, constant input).  The bound used is that geometric sum with 1.6x slack. */
+          is only contracted by (1-alpha) per step, so the excess can build up to delta*min(k+1,1/alpha) (up to 256 ulp observed on the
+          unchanged tree on long constant inputs).  The bound used is that geometric sum with 1.6x slack; calibration over
+          VERIF_SEED 1..5, quick+thorough: worst observed excess/slack = 0.22 (VF_MAX "lpf-range-excess/slack"), i.e. > 4x head-room.
+   settling (lpf_converge_case) / decay (hpf_decay_case): DESIGN.md constants (40 time constants, 1e-12*|c|); worst observed residuals
+          over the same runs 0.25e-12 resp. 0.11e-12 (stall of the rounded iteration at <= ulp(c)/alpha resp. 0.5*ulp(c)/(1-alpha)). */
 static void lpf_case(vf_rng *r)
 {
     int ac = (int)vf_below(r, NALPHA), cls = (int)vf_below(r, NCLASS);
